@@ -101,6 +101,11 @@ where
                         _ => b.append_withdrawals(v).unwrap(),
                     }
                 }
+                "LL" => {
+                    // the link-local part of an IPv6 next hop, set (again) on its own
+                    let a: [u8; 16] = unhex(rest)[..].try_into().unwrap();
+                    b.set_nexthop_ll_addr(Ipv6Addr::from(a)).unwrap();
+                }
                 "N" => {
                     let (kind, h) = rest.split_once(':').unwrap();
                     if let Err(e) = b.set_nexthop(nexthop(kind, h)) { notes.push(format!("nh-err:{}", err_s(&e))); }
@@ -190,7 +195,20 @@ where
         }
         res_s(&b.into_message(sc))
     });
-    format!("direct={} pamap={} builder={}", direct, pamap, builder.unwrap_or("PANIC".into()))
+    // the same builder, with the withdrawals of the PDU added twice (a builder that collects from more than one source): what
+    // was added first stays
+    let builder2 = guard(|| -> String {
+        let mut b: UpdateBuilder<Vec<u8>, T> = match UpdateBuilder::from_update_message(pdu, sc, Vec::new()) {
+            Ok(b) => b, Err(e) => return format!("err:seed:{}", err_s(&e)) };
+        b.add_withdrawals_from_pdu::<Vec<u8>, &'static [u8]>(pdu, sc);
+        b.add_announcements_from_pdu::<Vec<u8>, &'static [u8]>(pdu, sc);
+        b.add_withdrawals_from_pdu::<Vec<u8>, &'static [u8]>(pdu, sc);
+        if let Ok(Some(nh)) = pdu.mp_next_hop() {
+            if pdu.announcements().is_ok_and(|i| i.count() > 0) { let _ = b.set_nexthop(nh); }
+        }
+        res_s(&b.into_message(sc))
+    });
+    format!("direct={} pamap={} builder={} builder2={}", direct, pamap, builder.unwrap_or("PANIC".into()), builder2.unwrap_or("PANIC".into()))
 }
 
 macro_rules! dispatch {
